@@ -2460,8 +2460,8 @@ Proof.
   destruct (load_ok_explicit E p k Hload) as (cb & c & Hcb & Hc & Hkr & Hkp).
   exists (spec_pkg E (regularise E p) c). split; [|split].
   - apply (q_load E p Hwfq cb c Hcb Hc).
-  - apply (q_k_rels E p k Hcodec Hnames Hwfq cb c Hcb Hc Hkr).
-  - intros pt. symmetry. apply (iter_parts_k E p k Hcodec Hnames Hwfq cb c Hcb Hc Hkr Hkp Hload).
+  - apply (q_k_rels E p k Hcodec Hnames Hwfq cb c Hcb Hkr).
+  - intros pt. symmetry. apply (iter_parts_k E p k Hcodec Hnames Hwfq cb c Hcb Hkr Hkp Hload).
 Qed.
 
 (** with C01 on the regularised package: the parts an irregular package opens with are
